@@ -92,6 +92,10 @@ def window_pairs():
             "shift": (["shift", x, 1, None], lambda ck: ["shift", x, 1, None, ck]),
             "shift-1": (["shift", x, -1, lit(0)], lambda ck: ["shift", x, -1, lit(0), ck]),
             "sum": (["sum", x], lambda ck: ["sum", x, {"partition_by": ck["partition_by"]}]),
+            # the window function nested inside a larger expression
+            "shift-diff": (["sub", x, ["shift", x, 1, None]], lambda ck: ["sub", x, ["shift", x, 1, None, ck]]),
+            "row_number*10": (["mul", ["row_number"], lit(10)], lambda ck: ["mul", ["row_number", ck], lit(10)]),
+            "fill(shift)": (["fill_null", ["shift", x, -1, None], lit(0)], lambda ck: ["fill_null", ["shift", x, -1, None, ck], lit(0)]),
             "count": (["count_star"], lambda ck: ["count_star", {"partition_by": ck["partition_by"]}]),
         }
         for name, (bare, with_ck) in fns.items():
